@@ -4,6 +4,7 @@ import Ktm.PersistOps
 import Ktm.Metrics
 import Ktm.Ranking
 import Ktm.Search
+import Ktm.Growth
 /-! Line-protocol driver for the `oracle` suite (C01–C03, C04-ranking, C07, C08): the implementation's
     own `populate_space` answer is the external choice, the model (`Core.create / update / endT`,
     `Core.reload`, `Core.writeTrial / writeOracle`, `Metrics.*`, `Ranking.bestTrials`) does all the
@@ -34,6 +35,10 @@ structure St where
   budget : Option Nat                     -- number of further file writes that reach the disk (crash injection)
   tuners : List String                    -- tuner names, index = model tuner id
   width : Nat                             -- zero padding of ids
+  tuneNew : Bool := true                  -- `tune_new_entries`
+  gs : Growth.SSt String := ⟨[], 0, []⟩   -- `_tried_so_far` (hash = canonical text of the hashed values), Growth.recordS
+  idHash : List (Nat × String) := []      -- `_id_to_hash`
+  fileGs : Option (Growth.SSt String × List (Nat × String)) := none   -- what the oracle file holds of the two
 
 def pad (w n : Nat) : String :=
   let s := toString n
@@ -98,7 +103,7 @@ def doWriteTrial (st : St) (id : Nat) : St :=
 
 def doWriteOracle (st : St) : St :=
   let (st, ok) := spend st
-  if ok then { st with disk := writeOracle st.disk st.o } else st
+  if ok then { st with disk := writeOracle st.disk st.o, fileGs := some (st.gs, st.idHash) } else st
 
 /-- the writes of an operation as `Core.writesOf` lists them, each subject to the crash budget -/
 def applyWrites (st : St) (ws : List W) : St :=
@@ -148,8 +153,9 @@ def handle (st : Option St) (j : Json) : Option St × String :=
       let mc := (j.getObjValAs? Nat "max_consec").toOption.getD 3
       let mn := (j.getObjValAs? Bool "minimize").toOption.getD true
       let w := (j.getObjValAs? Nat "width").toOption.getD 1
+      let tn := (j.getObjValAs? Bool "tune_new").toOption.getD true
       (some { o := Core.init (V := V) none mt mr mc, minimize := mn, side := ⟨[], []⟩,
-              disk := ⟨fun _ => none, none⟩, fileSide := [], budget := none, tuners := [], width := w }, "ok")
+              disk := ⟨fun _ => none, none⟩, fileSide := [], budget := none, tuners := [], width := w, tuneNew := tn }, "ok")
     | .ok "create", some st =>
       let name := (j.getObjValAs? String "tuner").toOption.getD "?"
       let (st, tid) := tunerId st name
@@ -164,6 +170,14 @@ def handle (st : Option St) (j : Json) : Option St × String :=
       let o0 := { st.o with alg := some pop }
       let ws := writesOf alg o0 (.create tid 0)
       let r := create alg o0 tid 0
+      -- `_record_values` of a new trial: the hash of its values joins the tried set (as `Growth.populateS` does)
+      let hk := ((j.getObjVal? "pop").toOption.bind (fun p => (p.getObjValAs? String "hkey").toOption))
+      let st := match r.2, hk with
+        | .trial id _, some hk =>
+          if id == st.o.trials.length then
+            { st with gs := { st.gs with tried := st.gs.tried ++ [hk] }, idHash := assocSet st.idHash id hk }
+          else st
+        | _, _ => st
       -- file writes of `create_trial`: new trial ⇒ trial file then oracle file; retry ⇒ oracle file only
       let st := applyWrites { st with o := r.1 } ws
       let out := match r.2 with
@@ -189,6 +203,16 @@ def handle (st : Option St) (j : Json) : Option St × String :=
       let best := Metrics.bestValue st.minimize (getObs st id)
       let sc : Option Int := match best with | some (.val _) => some 0 | _ => none
       let a : Alg V A := { alg with scoreOf := fun _ => sc }
+      -- first lines of `end_trial`: the stored trial takes the reported values, `_record_values` again (Growth.syncVals / recordS)
+      let st := match (j.getObjValAs? String "values").toOption, (j.getObjValAs? String "hkey").toOption with
+        | some v, some hk =>
+          match st.o.trials[id]? with
+          | some _ =>
+            { st with o := Growth.syncVals (fun a _ _ => a) st.o id v,
+                      gs := Growth.recordS st.tuneNew st.gs ((assocGet st.idHash id).getD "") hk,
+                      idHash := assocSet st.idHash id hk }
+          | none => st
+        | _, _ => st
       let ws := writesOf a st.o (.endT id oc)
       let r := endT a st.o id oc
       match r.2 with
@@ -217,8 +241,14 @@ def handle (st : Option St) (j : Json) : Option St × String :=
           { obs := (List.range o'.trials.length).map (fun i => (i, ((assocGet st.fileSide i).map (·.1)).getD []))
             score := (List.range o'.trials.length).filterMap (fun i =>
               match assocGet st.fileSide i with | some (_, some v) => some (i, v) | _ => none) }
-        let st' := { st with o := o', side := side, budget := none }
+        let st' := { st with o := o', side := side, budget := none,
+                             gs := (st.fileGs.map (·.1)).getD ⟨[], 0, []⟩, idHash := (st.fileGs.map (·.2)).getD [] }
         (some st', "reloaded | " ++ stateStr st')
+    | .ok "tried", some st =>
+      (some st, "tried " ++ String.intercalate ";" (st.gs.tried.eraseDups.toArray.qsort (· < ·)).toList)
+    | .ok "vals", some st =>
+      let id := (j.getObjValAs? Nat "id").toOption.getD 0
+      (some st, "vals " ++ match st.o.trials[id]? with | some t => t.vals | none => "?")
     | .ok "remaining", some st =>
       (some st, match st.o.maxTrials with | some m => s!"remaining {m - st.o.trials.length}" | none => "remaining none")
     | .ok "best", some st =>
